@@ -333,6 +333,14 @@ def reservations(ck, prog, config, maxc):
             elif m.k == 'var' and depth < 2 and len(defs.get(m.decl, [])) == 1:
                 out += consts_of(defs[m.decl][0], depth + 1)     # a per-entry size hoisted into a local
         return out
+    # the accumulator of the reservation: the local whose value sizes the index allocation
+    accs = set()
+    for c_ in calls_of(fn, ('zmalloc', 'malloc', 'zrealloc')):
+        sz = c_.a[-1]
+        for m in walk(sz):
+            if m.k == 'var' and m.dk == 'VarDecl':
+                accs.add(m.op)
+    ck.require(bool(accs), 'index_create: allocation sized by a local not found')
     res_loop = None
     for lp in loops:
         exprs = [s.e for s in walk_stmts(lp.body) if s.e is not None]
@@ -340,7 +348,7 @@ def reservations(ck, prog, config, maxc):
             exprs.append(lp.inc)
         for e in exprs:
             for n in walk(e):
-                if n.k == 'bin' and n.op == '+=' and pstr(n.a[0]) == 'index_malloc':
+                if n.k == 'bin' and n.op == '+=' and pstr(n.a[0]) in accs:
                     # constant part of the per-entry reservation
                     for cv in consts_of(n.a[1]):
                         if cv >= maxc:
